@@ -93,7 +93,7 @@ package index
 
 //@ func Directory.Load(recv, kind, id) (data, closer, err)
 //@   interface
-//@   props C12 C03 C11
+//@   props C12 C03 C11 C08
 //@   modifies openHandles
 //@   ensures err != nil ==> data == nil && closer == nil && openHandles == old(openHandles)
 //@   ensures err == nil ==> data != nil && openHandles == old(openHandles) + ite(closer != nil, 1, 0)
@@ -130,9 +130,6 @@ package index
 // newest and ends up on the NEWEST LOADABLE one, skipping every one that fails to load; it
 // reports an error only when snapshots exist and none loads.
 //@ func Writer.replaceRoot
-//@   props C03 C12
-//@   opaque
-//@ func KeepNLatestDeletionPolicy.Commit
 //@   props C03 C12
 //@   opaque
 
@@ -227,7 +224,7 @@ package index
 
 //@ func Directory.Persist(recv, kind, id, w, closeCh) (err)
 //@   interface
-//@   props C02 C14 C11 C03
+//@   props C02 C14 C11 C03 C08
 //@   requires [segments-before-snapshot] kind == ".snp" ==> (forall k int :: 0 <= k && k < len(ptr(Snapshot, iref(w)).segment) ==>
 //@        (ptr(Snapshot, iref(w)).segment[k].segment.persisted || segOnDisk[ptr(Snapshot, iref(w)).segment[k].id]))
 //@   modifies segOnDisk, snpOnDisk
@@ -238,7 +235,7 @@ package index
 
 //@ func Directory.Remove(recv, kind, id) (err)
 //@   interface
-//@   props C02 C14 C11 C03
+//@   props C02 C14 C11 C03 C08
 //@   modifies segOnDisk, snpOnDisk
 //@   ensures kind == ".seg" ==> snpOnDisk == old(snpOnDisk) && (forall j uint64 :: j != id ==> segOnDisk[j] == old(segOnDisk)[j])
 //@   ensures kind == ".snp" ==> segOnDisk == old(segOnDisk) && (forall j uint64 :: j != id ==> snpOnDisk[j] == old(snpOnDisk)[j])
@@ -326,6 +323,29 @@ package index
 // A segment file is removed only if NO epoch recorded in liveSegments lists it; a snapshot file
 // is removed only if its epoch is not among the live epochs.
 
+// Commit keeps the newest n epochs live, moves the older ones to the deletable list and keeps the two
+// lists disjoint (epochs are handed in strictly increasing, so the new one is in neither list).
+//@ func KeepNLatestDeletionPolicy.Commit
+//@   props C11 C03 C12
+//@   nopanic nonil
+//@   heap_wf
+//@   requires {C11} p != nil && snapshot != nil && p.n >= 0 && p.liveSegments != nil && p.knownSegmentFiles != nil
+//@   requires {C11} [entries-non-nil] forall k int :: (0 <= k && k < len(snapshot.segment)) ==> snapshot.segment[k] != nil
+//@   requires {C11} [live-and-deletable-disjoint] forall a int, b int :: (0 <= a && a < len(p.liveEpochs) && 0 <= b && b < len(p.deletableEpochs)) ==> p.liveEpochs[a] != p.deletableEpochs[b]
+//@   requires {C11} [live-distinct] forall a int, b int :: (0 <= a && a < b && b < len(p.liveEpochs)) ==> p.liveEpochs[a] != p.liveEpochs[b]
+//@   requires {C11} [separate-arrays] isnil(p.liveEpochs) || isnil(p.deletableEpochs) || base(p.liveEpochs) != base(p.deletableEpochs)
+//@   requires {C11} [epoch-is-new] (forall a int :: (0 <= a && a < len(p.liveEpochs)) ==> p.liveEpochs[a] != snapshot.epoch) && (forall b int :: (0 <= b && b < len(p.deletableEpochs)) ==> p.deletableEpochs[b] != snapshot.epoch)
+//@   modifies *
+//@   at call append: assert {C11} [kept-epochs-not-among-the-trimmed] forall a int, b int :: (0 <= a && a < len(p.liveEpochs) && 0 <= b && b < len(newlyDeletable)) ==> p.liveEpochs[a] != newlyDeletable[b]
+//@   at call append: assert {C11} [kept-epochs-not-deletable-yet] forall a int, b int :: (0 <= a && a < len(p.liveEpochs) && 0 <= b && b < len(p.deletableEpochs)) ==> p.liveEpochs[a] != p.deletableEpochs[b]
+//@   ensures {C11} [keeps-n-latest] len(p.liveEpochs) == ite(old(len(p.liveEpochs)) + 1 > p.n, p.n, old(len(p.liveEpochs)) + 1)
+//@   ensures {C11} [newest-is-live] p.n >= 1 ==> p.liveEpochs[len(p.liveEpochs) - 1] == snapshot.epoch
+//@   ensures {C11} [live-and-deletable-disjoint] forall a int, b int :: (0 <= a && a < len(p.liveEpochs) && 0 <= b && b < len(p.deletableEpochs)) ==> p.liveEpochs[a] != p.deletableEpochs[b]
+//@   ensures {C11} [live-distinct] forall a int, b int :: (0 <= a && a < b && b < len(p.liveEpochs)) ==> p.liveEpochs[a] != p.liveEpochs[b]
+//@   ensures {C11} [separate-arrays] isnil(p.liveEpochs) || isnil(p.deletableEpochs) || base(p.liveEpochs) != base(p.deletableEpochs)
+//@   loop 1
+//@     invariant p.n == old(p.n) && p.liveEpochs == old(p.liveEpochs) && p.deletableEpochs == old(p.deletableEpochs)
+
 //@ func KeepNLatestDeletionPolicy.cleanupSegments
 //@   props C11 C14
 //@   requires p != nil
@@ -339,9 +359,12 @@ package index
 //@   requires p != nil
 //@   requires [live-and-deletable-disjoint] forall a int, b int :: (0 <= a && a < len(p.liveEpochs) && 0 <= b && b < len(p.deletableEpochs)) ==> p.liveEpochs[a] != p.deletableEpochs[b]
 //@   at call Remove: assert [snapshot-not-live] forall a int :: (0 <= a && a < len(p.liveEpochs)) ==> p.liveEpochs[a] != deletableEpoch
+//@   ensures [live-epochs-untouched] len(p.liveEpochs) == old(len(p.liveEpochs)) && (forall a int :: (0 <= a && a < len(p.liveEpochs)) ==> p.liveEpochs[a] == old(p.liveEpochs[a]))
+//@   ensures [separate-arrays] isnil(p.liveEpochs) || isnil(p.deletableEpochs) || base(p.liveEpochs) != base(p.deletableEpochs)
 //@   loop 1
 //@     invariant rangeindex < len(p.deletableEpochs)
 //@     invariant isnil(remainingEpochs) || fresh(base(remainingEpochs))
+//@     invariant p.liveEpochs == old(p.liveEpochs) && (forall a int :: (0 <= a && a < len(p.liveEpochs)) ==> p.liveEpochs[a] == old(p.liveEpochs[a]))
 //@     invariant forall a int, b int :: (0 <= a && a < len(p.liveEpochs) && 0 <= b && b < len(p.deletableEpochs)) ==> p.liveEpochs[a] != p.deletableEpochs[b]
 
 // ---- handles and the directory lock (C11) ----
@@ -388,3 +411,22 @@ package index
 //@   props C11 C03
 //@   requires !dirLocked && !unlockFailed
 //@   ensures [no-lock-leak-on-failure] result1 != nil ==> (!dirLocked || unlockFailed)
+
+// ---------------------------------------------------------------------------
+// Offline writer (C08: an index built offline, including the empty one; C11: handles released)
+// ---------------------------------------------------------------------------
+
+//@ func WriterOffline.doMerge() (err)
+//@   props C08 C11
+//@   trusted
+//@   modifies WriterOffline.segIDs, WriterOffline.segCount, segOnDisk, snpOnDisk, openHandles
+//@   ensures openHandles == old(openHandles)
+//@   ensures err == nil ==> (len(s.segIDs) <= 1 && (len(s.segIDs) == 0 <==> old(len(s.segIDs)) == 0))
+
+// Close must work for every number of batches, zero included, and must give back every handle it took.
+//@ func WriterOffline.Close() (err)
+//@   props C08 C11
+//@   nopanic nonil
+//@   requires s != nil && s.directory != nil && s.segPlugin != nil && s.segPlugin.Load != nil
+//@   modifies *
+//@   ensures [handles-released] openHandles == old(openHandles)
